@@ -35,7 +35,9 @@ PLANETS = {'jup': (1.0, 1.0), 'neptune': (0.054, 0.35), 'heavy': (10.0, 1.2), 'e
 TLETTERS = ['iso1500', 'dec', 'inv', 'cold', 'int-dec']     # int-dec: whole numbers handed over as Python ints
 MULETTERS = ['const', 'varying', 'heavy']
 PSOURCES = ['simple', 'array-grid', 'array-mild', 'array-wild', 'array-reverse', 'file-pa', 'file-bar-col1',
-            'file-reverse', 'file-bar-reverse', 'array-edge']
+            'file-reverse', 'file-bar-reverse', 'array-edge',
+            # pressure in the second column of a file without header lines / in the first column below two header lines
+            'file-col1-nohead', 'file-col0-head2']
 MODELS = ['transmission', 'emission']
 PER_LAYER = ['temp_profile', 'density_profile', 'scaleheight_profile', 'altitude_profile',
              'gravity_profile', 'pressure_profile', 'mu_profile']
@@ -60,7 +62,8 @@ def tabulated_pressures(n, prange, letter):
     """Strictly decreasing layer pressures (Pa), surface first."""
     pmin, pmax = PRANGES[prange]
     grid = rhydro.layer_pressure(rhydro.simple_levels(n, pmin, pmax))
-    if letter in ('array-grid', 'array-reverse', 'file-pa', 'file-bar-col1', 'file-reverse', 'file-bar-reverse'):
+    if letter in ('array-grid', 'array-reverse', 'file-pa', 'file-bar-col1', 'file-reverse', 'file-bar-reverse',
+                  'file-col1-nohead', 'file-col0-head2'):
         return grid
     lg = np.log10(grid)
     if letter == 'array-edge':
@@ -124,6 +127,13 @@ def build_model(case):
                 elif src == 'file-bar-reverse':        # top-down file in bar
                     for p in given[::-1]:
                         f.write('%.17e\n' % (p / 1e5))
+                elif src == 'file-col1-nohead':
+                    for i, p in enumerate(given):
+                        f.write('%d %.17e\n' % (i, p))
+                elif src == 'file-col0-head2':
+                    f.write('# pressure[Pa] index\n# second header line\n')
+                    for i, p in enumerate(given):
+                        f.write('%.17e %d\n' % (p, i))
                 else:
                     for p in given[::-1]:
                         f.write('%.17e\n' % p)
@@ -133,6 +143,10 @@ def build_model(case):
                 press = FilePressureProfile(path, usecols=1, skiprows=1, units='bar')
             elif src == 'file-bar-reverse':
                 press = FilePressureProfile(path, units='bar', reverse=True)
+            elif src == 'file-col1-nohead':
+                press = FilePressureProfile(path, usecols=1, skiprows=0)
+            elif src == 'file-col0-head2':
+                press = FilePressureProfile(path, usecols=0, skiprows=2)
             else:
                 press = FilePressureProfile(path, reverse=True)
     tv = temperature_values(n, case['T'])
@@ -301,7 +315,13 @@ HIST_ALPHABET = [['planet_radius', 0.6], ['planet_radius', 1.5], ['planet_mass',
                  # temperature / weight pairs with the same surface scale height
                  ['__multi__', [['planet_mass', 4.0], ['planet_radius', 2.0]]],
                  ['__multi__', [['planet_mass', 0.25], ['planet_radius', 0.5]]],
-                 ['__multi__', [['T', 2400.0], ['planet_mass', 2.0]]]]
+                 ['__multi__', [['T', 2400.0], ['planet_mass', 2.0]]],
+                 # the pressure range moved to one that does not overlap the old one, either bound first (the object
+                 # passes through an inverted range between the two writes; only the final pair counts)
+                 ['__multi__', [['atm_min_pressure', 1e7], ['atm_max_pressure', 1e9]]],
+                 ['__multi__', [['atm_max_pressure', 1e9], ['atm_min_pressure', 1e7]]],
+                 ['__multi__', [['atm_max_pressure', 1e-3], ['atm_min_pressure', 1e-6]]],
+                 ['__multi__', [['atm_min_pressure', 1e-6], ['atm_max_pressure', 1e-3]]]]
 HIST_REDUCED = [['planet_radius', 0.6], ['planet_radius', 1.5], ['planet_mass', 0.4], ['T', 600.0], ['H2O', 0.3],
                 ['atm_max_pressure', 1e5]]
 STRUCT_ATTRS = ['pressureProfile', 'temperatureProfile', 'densityProfile', 'altitudeProfile', 'gravity_profile',
@@ -361,10 +381,10 @@ def explore(ctx):
     ctx.run_cases('case_fn', cases, phase='inputs')
     from mc import rthist
     if ctx.tier == 'thorough':
-        hs = rthist.histories(HIST_ALPHABET, 3, HIST_REDUCED, 4)
+        hs = [h for h in rthist.histories(HIST_ALPHABET, 3, HIST_REDUCED, 4) if rthist.range_ordered(h)]
         cfgs = [('transmission', 4), ('emission', 3), ('transmission', 1)]
     else:
-        hs = rthist.histories(HIST_ALPHABET, 2, HIST_REDUCED, 3)
+        hs = [h for h in rthist.histories(HIST_ALPHABET, 2, HIST_REDUCED, 3) if rthist.range_ordered(h)]
         cfgs = [('transmission', 4), ('emission', 3)]
     hcases = [{'kind': k, 'N': n, 'hist': h} for (k, n) in cfgs for h in hs]
     ctx.bounds.update(histories=len(hcases), history_depth=3 if ctx.tier == 'thorough' else 2)
